@@ -167,6 +167,12 @@ pub fn through_decoder(prop: &str, rep: &mut Report, cube: &Cube, focus: &[KeyCo
             }
         }
     }
+    // one literal history of this run, as evidence of what the workload looks like
+    {
+        let mut rng = Rng::fork(rep.seed, 0x7470_0000);
+        let ops = history(&mut rng, focus, &all, 14);
+        rep.sample_str(format!("via-decoder history (Us104Key): {}", ops.iter().map(|o| o.show()).collect::<Vec<_>>().join(", ")));
+    }
     rep.evaluations += judged;
     rep.count("via_decoder_presses", presses);
     rep.count("via_decoder_presses_judged_by_the_property", judged);
